@@ -55,7 +55,14 @@ pub const TEXTS: &[S] = &[
     "tab\there",
     "`code` and *stars* and <angle> & amp",
 ];
-pub const MSGS: &[S] = &["must be valid", "need at least one", "check failed"];
+pub const MSGS: &[S] = &[
+    "must be valid",
+    "need at least one",
+    "check failed",
+    "ends with a newline\n",
+    "ends with a blank ",
+    "two\nlines\n\n",
+];
 
 /// per-run feature switches (swarm testing): each run enables a random subset
 #[derive(Clone, Debug)]
